@@ -69,6 +69,7 @@ def check(repo, tier="quick"):
     res.rule("C07.b", "every field defaulted to AUTO is filled by an autofill routine; autofill_and_serialise_stream runs all of them before serialising and the finalize step after flushing")
     res.rule("C07.c", "autofill_major_version consults exactly the version-implication rules the validator enforces, under the same field conditions")
     res.rule("C07.d", "automatic picture numbers: same wrap mask as the validator, restart per sequence, incremented for pictures and for fragments only when fragment_slice_count == 0")
+    res.rule("C07.f", "per-sequence scope: in every autofill routine, each local that is rebound inside the loop over sequences is definitely (re)assigned within one iteration of that loop before it is read -- no version, picture number or flag is carried from one sequence into the next")
     res.rule("C07.e", "parse offsets: only recorded (AUTO) positions are patched after serialisation; next offset 0 for the last data unit, previous 0 for the first; distances from the recorded _offset values")
 
     m = repo.mod(AF)
@@ -80,6 +81,8 @@ def check(repo, tier="quick"):
     rule_c(repo, res, m)
     rule_d(repo, res, m)
     rule_e(repo, res, m)
+    rule_f(repo, res, m)
+    res.floor("C07.f", 3)
     res.floor("C07.a", 6)
     res.floor("C07.b", 7)
     res.floor("C07.c", 10)
@@ -186,6 +189,12 @@ def rule_b(repo, res, m):
     res.check(ok, "C07.b", "pipeline:finalize-arguments", where, "finalize must receive the writer, the serialiser's context and the (next, previous) position lists in that order", by="(writer, serdes.context, next, previous)")
 
 
+def _is_index_local(fn, name):
+    """every assignment of `name` in fn is get_auto(<dict>, "index", <type>)"""
+    defs = [n for n in ast.walk(fn) if isinstance(n, ast.Assign) and any(isinstance(t, ast.Name) and t.id == name for t in n.targets)]
+    return bool(defs) and all(isinstance(d.value, ast.Call) and dotted(d.value.func) == "get_auto" and len(d.value.args) >= 2 and const_str(d.value.args[1]) == "index" for d in defs)
+
+
 def rule_c(repo, res, m):
     fn = m.funcs["autofill_major_version"]
     where = "%s:autofill_major_version" % m.rel
@@ -194,14 +203,19 @@ def rule_c(repo, res, m):
     res.info["version_implications"] = mine
     for f in sorted(set(mine) | set(theirs)):
         res.check(f in mine and f in theirs, "C07.c", "implication:%s" % f, where, "%s is %s by autofill_major_version and %s by the validator" % (f, "consulted" if f in mine else "NOT consulted", "enforced (%s)" % theirs[f] if f in theirs else "NOT enforced"), by="consulted by both (%s)" % theirs.get(f))
-    # each implication feeds max(major_version, ...)
+    # the accumulator: the local whose value is stored into <dict>['major_version']
+    accs = set(n.value.id for n in ast.walk(fn) if isinstance(n, ast.Assign) and isinstance(n.targets[0], ast.Subscript) and const_str(n.targets[0].slice) == "major_version" and isinstance(n.value, ast.Name))
+    if len(accs) != 1:
+        raise AnalysisError("autofill_major_version: the store <dict>['major_version'] = <local> was not found (%s)" % sorted(accs))
+    ACC = accs.pop()
+    # each implication feeds max(ACC, ...)
     bad = []
     for c in ast.walk(fn):
         if isinstance(c, ast.Call) and (dotted(c.func) or "").endswith("_version_implication"):
             p = getattr(c, "_parent", None)
-            if not (isinstance(p, ast.Call) and dotted(p.func) == "max" and any(dotted(a) == "major_version" for a in p.args)):
+            if not (isinstance(p, ast.Call) and dotted(p.func) == "max" and any(dotted(a) == ACC for a in p.args) and isinstance(getattr(p, "_parent", None), ast.Assign) and dotted(p._parent.targets[0]) == ACC):
                 bad.append(dotted(c.func))
-    res.check(not bad, "C07.c", "implication:accumulated-with-max", where, "results not folded into max(major_version, ...): %s" % bad, by="major_version = max(major_version, implication)")
+    res.check(not bad, "C07.c", "implication:accumulated-with-max", where, "results not folded into %s = max(%s, ...): %s" % (ACC, ACC, bad), by="%s = max(%s, implication)" % (ACC, ACC))
     # field conditions mirror the validator: presets only when the custom flag is set; colour sub-presets only under index == 0
     conds = {}
     for c in ast.walk(fn):
@@ -211,7 +225,7 @@ def rule_c(repo, res, m):
             for t, p in gs:
                 if p and isinstance(t, ast.Call) and dotted(t.func) == "get_auto" and const_str(t.args[1]):
                     flags.append(const_str(t.args[1]))
-                if p and isinstance(t, ast.Compare) and norm(t) == "index == 0":
+                if p and isinstance(t, ast.Compare) and isinstance(t.left, ast.Name) and len(t.ops) == 1 and isinstance(t.ops[0], ast.Eq) and isinstance(t.comparators[0], ast.Constant) and t.comparators[0].value == 0 and _is_index_local(fn, t.left.id):
                     flags.append("index==0")
             conds[dotted(c.func)] = flags
     want = {
@@ -225,11 +239,11 @@ def rule_c(repo, res, m):
     for f, w in want.items():
         res.check(conds.get(f) == w, "C07.c", "condition:%s" % f, where, "%s is consulted under %s; the validator reads that field under %s" % (f, conds.get(f), w), by="under %s" % w)
     # the minimum is the validator's minimum
-    ok = any(isinstance(n, ast.Assign) and dotted(n.targets[0]) == "major_version" and dotted(n.value) == "MINIMUM_MAJOR_VERSION" for n in ast.walk(fn))
+    ok = any(isinstance(n, ast.Assign) and dotted(n.targets[0]) == ACC and dotted(n.value) == "MINIMUM_MAJOR_VERSION" for n in ast.walk(fn))
     res.check(ok, "C07.c", "version:starts-at-minimum", where, "the computed version must start from MINIMUM_MAJOR_VERSION for every sequence", by="MINIMUM_MAJOR_VERSION")
     # the stored value is the computed one
-    ok = any(isinstance(n, ast.Assign) and norm(n.targets[0]) == "parse_parameters['major_version']" and dotted(n.value) == "major_version" for n in ast.walk(fn))
-    res.check(ok, "C07.c", "version:stored", where, "the computed version must be what is stored", by="parse_parameters['major_version'] = major_version")
+    others = [n for n in ast.walk(fn) if isinstance(n, ast.Assign) and dotted(n.targets[0]) == ACC and not (dotted(n.value) == "MINIMUM_MAJOR_VERSION" or (isinstance(n.value, ast.Call) and dotted(n.value.func) == "max" and any(dotted(a) == ACC for a in n.value.args)))]
+    res.check(not others, "C07.c", "version:stored", where, "the stored version %s is also assigned by %s (neither the minimum nor a max-accumulation)" % (ACC, [short(o) for o in others]), by="<dict>['major_version'] = %s, assigned only by the minimum and max-accumulations" % ACC)
 
 
 def rule_d(repo, res, m):
@@ -338,3 +352,57 @@ def rule_e(repo, res, m):
             parts = {norm(n.value.left), norm(n.value.right)}
             ok = "PARSE_INFO_HEADER_BYTES" in parts and any(p_.startswith("len(") for p_ in parts)
     res.check(ok, "C07.e", "padding-aux:offset-from-payload", "%s:autofill_parse_offsets" % m.rel, "for padding/auxiliary data the automatic next offset must be the header size plus the payload length (it determines how many bytes are read back)", by="PARSE_INFO_HEADER_BYTES + len(payload)")
+
+
+def seq_loops(fn):
+    """for-loops of fn that iterate over stream['sequences'] / stream.get('sequences', ...)
+    (optionally through enumerate)."""
+    out = []
+    for n in ast.walk(fn):
+        if isinstance(n, ast.For):
+            it = n.iter
+            if isinstance(it, ast.Call) and dotted(it.func) == "enumerate" and it.args:
+                it = it.args[0]
+            k = None
+            if isinstance(it, ast.Call) and isinstance(it.func, ast.Attribute) and it.func.attr == "get" and it.args:
+                k = const_str(it.args[0])
+            elif isinstance(it, ast.Subscript):
+                k = const_str(it.slice)
+            if k == "sequences":
+                out.append(n)
+    return out
+
+
+def rule_f(repo, res, m):
+    from ..locals_da import LocalsDA, scope_locals
+
+    for name, fn in m.funcs.items():
+        loops = seq_loops(fn)
+        if not loops:
+            continue
+        where = "%s:%s" % (m.rel, name)
+        fl = scope_locals(fn)
+        for li, loop in enumerate(loops):
+            rebound = set()
+            for s in loop.body:
+                for n in ast.walk(s):
+                    if isinstance(n, ast.Name) and isinstance(n.ctx, (ast.Store, ast.Del)):
+                        rebound.add(n.id)
+            tnames = set(x.id for x in ast.walk(loop.target) if isinstance(x, ast.Name))
+            params = sorted((fl - rebound) | tnames)
+            synth = ast.FunctionDef(
+                name="_per_sequence", args=ast.arguments(posonlyargs=[], args=[ast.arg(arg=p) for p in params], vararg=None, kwonlyargs=[], kw_defaults=[], kwarg=None, defaults=[]),
+                body=[ast.For(target=ast.Name(id="__s", ctx=ast.Store()), iter=ast.Constant(value=()), body=loop.body, orelse=[])], decorator_list=[], returns=None, type_comment=None,
+            )
+            da = LocalsDA(synth)
+            fails = da.run()
+            carried = {}
+            for f in fails:
+                if f.name in rebound - tnames:
+                    carried.setdefault(f.name, f.node)
+            for v in sorted(rebound - tnames):
+                key = "%s:sequence-loop%s:%s" % (name, "" if len(loops) == 1 else "#%d" % li, v)
+                if v in carried:
+                    res.bad("C07.f", key, where, "local %r is read at line %d with a value that may come from the previous sequence (or from before the loop over sequences): it is not definitely assigned within the current sequence's iteration before that read" % (v, getattr(carried[v], "lineno", 0)))
+                else:
+                    res.ok("C07.f", key, where, by="definitely assigned within the iteration before every read")
